@@ -270,7 +270,12 @@ class DataStreamChannel(BaseDataStreamChannel):
             return
 
         for pb_msg in self.decode_protobufs(data):
-            self.listener.handle_protobuf(pb_msg)
+            # A listener failing on one message must not take down the channel nor the
+            # messages that arrived in the same read (same as the MRP connection)
+            try:
+                self.listener.handle_protobuf(pb_msg)
+            except Exception:  # pylint: disable=broad-except
+                _LOGGER.exception("Failed to handle message on data channel")
 
     def send_protobuf(self, message: protobuf.ProtocolMessage) -> None:
         """Serialize a protobuf message and send it to receiver."""
